@@ -57,15 +57,31 @@ fn str_prefix(class: usize) -> &'static str {
     }
 }
 
+/// Boundary classes (filters and sorts only: strictly monotone, not affine): the column values 0, 2, 4, 6 span
+/// exactly the range of a narrow stored type (class 7: 0..=255 as u8; class 8: 1000..=66535 as u16 with offset),
+/// so the largest value is stored as the type's maximum and the constants 7, 9 lie just beyond it.
+pub const BOUNDARY_CLASSES: [usize; 2] = [7, 8];
+pub fn value(class: usize, k: i64) -> i64 {
+    let table = |t: [i64; 13]| t[(k + 3) as usize];
+    match class {
+        //          -3    -2   -1  0  1  2      3      4      5      6      7      8      9
+        7 => table([-100, -2, -1, 0, 1, 84, 85, 168, 254, 255, 256, 257, 300]),
+        8 => 1000 + table([-1000, -2, -1, 0, 1, 20000, 20001, 40000, 65534, 65535, 65536, 65537, 70000]),
+        _ => {
+            let (a, b) = affine(class);
+            a * k + b
+        }
+    }
+}
+
 pub fn gamma(class: usize, col: &str, k: i64) -> Cell {
     if k == NULL {
         return Cell::Null;
     }
-    let (a, b) = affine(class);
     match col_ty(col) {
         Ty::Int if col == "id" => Cell::Int(k),
-        Ty::Int | Ty::Absent => Cell::Int(a * k + b),
-        Ty::Float => Cell::Float((a * k + b) as f64),
+        Ty::Int | Ty::Absent => Cell::Int(value(class, k)),
+        Ty::Float => Cell::Float(value(class, k) as f64),
         Ty::Str => Cell::Str(format!("{}{:02}", str_prefix(class), k + 3)),
     }
 }
